@@ -114,7 +114,7 @@ decided:
 	wantOK := false
 	var exts []vfExt
 	bodies, _, _ := vfSplitFrames(c.Reply)
-	if len(bodies) >= 1 {
+	if len(bodies) >= 1 && len(bodies[0]) <= vfMaxFrame { // a longer frame may be refused as too long
 		if p, _, e := vfDecodeBody(bodies[0]); e == nil && p.Type == vfFxpVersion && p.Version == 3 {
 			wantOK = true
 			exts = p.Exts
